@@ -1020,7 +1020,7 @@ class TorchBackendProvider(BackendProvider):
 
         param_names = list(self._collect_params(ir))
         fn_source = f"def _expr({', '.join(param_names)}): return {source}"
-        ns = {}
+        ns = dict(self._compiled_helpers())
         try:
             exec(fn_source, ns)
         except Exception:
@@ -1043,10 +1043,15 @@ class TorchBackendProvider(BackendProvider):
             r = self._ir_to_source(right)
             if l is None or r is None:
                 return None
-            py_op = {'+': '+', '-': '-', '*': '*', '%': '/', '^': '**'}.get(op)
-            if py_op is None:
+            py_op = {'+': '+', '-': '-', '*': '*', '%': '/'}.get(op)
+            if py_op is not None:
+                return f'({l}{py_op}{r})'
+            # Python's ** is not Klong's Power (integral results are integers,
+            # integer overflow, nested operands): call the verb itself.
+            py_fn = {'^': '_kg_power'}.get(op)
+            if py_fn is None:
                 return None
-            return f'({l}{py_op}{r})'
+            return f'{py_fn}({l},{r})'
 
         if node_type == 'cmp':
             op, left, right = ir[1], ir[2], ir[3]
